@@ -256,7 +256,11 @@ pub fn run(ctx: &Ctx) -> i32 {
     let (c1, u1, t1, s1) = sr_explore(mf, dp, &known);
     let (c2, u2, t2, _) = sr_explore(mf, dp, &known);
     let k1: Vec<String> = c1.map.keys().cloned().collect(); let k2: Vec<String> = c2.map.keys().cloned().collect();
-    if u1 != u2 || t1 != t2 || k1 != k2 { eprintln!("MACHINERY: tracker exploration differs between two runs (hash-order dependence in the harness?) {u1}/{t1} vs {u2}/{t2}"); return 2; }
+    // the search stops at the first unlisted discovery, so two runs that both found one are not comparable in size:
+    // the reproducibility check applies to complete explorations only (a discovery is a verdict, not a machinery error)
+    let discovered = k1.iter().chain(k2.iter()).any(|k| !known.contains(k));
+    if !discovered && (u1 != u2 || t1 != t2 || k1 != k2) { eprintln!("MACHINERY: tracker exploration differs between two runs (hash-order dependence in the harness?) {u1}/{t1} vs {u2}/{t2}"); return 2; }
+    if discovered { col.merge(c2); }
     let child = std::process::Command::new(std::env::current_exe().unwrap()).args(["C16", &ctx.tier]).env("VERIF_C16_DIGEST", "1").env("VERIF_DUMP_FINDINGS", "1").output();
     let mut child_ok = false;
     if let Ok(o) = child { let so = String::from_utf8_lossy(&o.stdout); if let Some(l) = so.lines().find(|l| l.starts_with("DIGEST")) { let p: Vec<&str> = l.split(' ').collect(); child_ok = p.len() >= 3 && p[1] == u1.to_string() && (std::env::var("VERIF_DUMP_FINDINGS").is_err() || p[2] == t1.to_string()); } }
@@ -264,7 +268,7 @@ pub fn run(ctx: &Ctx) -> i32 {
     ev.set("states", json!(u1)); ev.set("transitions", json!(t1));
     ev.set("traces_validated_against_impl", json!(t1 + evals));
     ev.set("evaluations", json!(evals + t1));
-    ev.set("tracker_state_machine", json!({"engine": "stateright 0.31 spawn_dfs", "run1": s1, "second_run_identical": true, "second_process_same_state_count": child_ok, "state_key": "(field map, consumed (tag,position) set, depth); the real tracker is cloned into the successor"}));
+    ev.set("tracker_state_machine", json!({"engine": "stateright 0.31 spawn_dfs", "run1": s1, "second_run_identical": !discovered, "second_process_same_state_count": child_ok, "state_key": "(field map, consumed (tag,position) set, depth); the real tracker is cloned into the successor"}));
     ev.set("tokeniser", json!({"texts": n_texts, "small_scope_pieces": pieces, "small_scope_max_pieces": maxl}));
     ev.set("distinct_nontrivial", json!(buckets.len() as u64 + u1.min(1000)));
     ev.set("rule", json!("(1) parse_block4_fields on every model message (LF and CRLF), every single structural mutation of the base messages and ALL texts of <= L pieces over {:20: :50K: :50A: :61: :86: x : LF}, compared with an independent line-start tokeniser (tag or base number as key, trimmed content, strictly increasing stamps); (2) stateright DFS over (field map, consumed set): ops get_next_available / +mark_consumed per tag and find_field_with_variant_sequential_constrained per base tag x variant constraint, vs a per-tag FIFO / minimum-position reference; (3) split_into_sequences with 6 configs and parse_repetitive_sequence: assigned fields = input fields, each once"));
